@@ -307,7 +307,9 @@ def generate(names=None) -> tuple[bool, str]:
 
 
 def gen_for(*names):
-    return lambda: generate(names)
+    f = lambda: generate(names)  # noqa: E731
+    f.slices = names
+    return f
 
 
 def _write(path: Path, text: str):
